@@ -200,6 +200,7 @@ def _worker(items):
 
 def run(tier, seed):
     c = vlib.Check("C17", tier, seed, "proof")
+    vlib.pure_python_parser()
     c.prove("C17.v")
     base = seed * 3000017
     nm, no = (6000, 4000) if tier == "quick" else (200000, 150000)
